@@ -44,17 +44,17 @@ type headSpec struct {
 }
 
 type script struct {
-	Size      int                  `json:"size"`
-	Chunk     int64                `json:"chunk_size"`
-	Threshold int64                `json:"parallel_threshold"`
-	MaxFetch  int64                `json:"max_fetch_bytes"`
-	Head      headSpec             `json:"head"`
-	Simple    string               `json:"simple_get"` // ok | 503 | reset  (whole-body GET when the fetcher falls back)
+	Size      int      `json:"size"`
+	Chunk     int64    `json:"chunk_size"`
+	Threshold int64    `json:"parallel_threshold"`
+	MaxFetch  int64    `json:"max_fetch_bytes"`
+	Head      headSpec `json:"head"`
+	Simple    string   `json:"simple_get"` // ok | 503 | reset  (whole-body GET when the fetcher falls back)
 	// SimpleChunked: the whole-body GET answer declares no Content-Length
 	// (chunked / streamed body): resp.ContentLength == -1.
-	SimpleChunked bool `json:"simple_get_without_content_length,omitempty"`
-	Attempts  map[string]behaviour `json:"attempts"`   // "chunk/attempt#" -> behaviour; missing = 206-exact rank 1
-	Seed      uint64               `json:"resource_seed"`
+	SimpleChunked bool                 `json:"simple_get_without_content_length,omitempty"`
+	Attempts      map[string]behaviour `json:"attempts"` // "chunk/attempt#" -> behaviour; missing = 206-exact rank 1
+	Seed          uint64               `json:"resource_seed"`
 }
 
 type hedgeCfg struct {
@@ -71,6 +71,9 @@ func (s *script) beh(chunk, n int) behaviour {
 }
 
 func (s *script) numChunks() int {
+	if s.Chunk <= 0 {
+		return 0
+	}
 	return int((int64(s.Size) + s.Chunk - 1) / s.Chunk)
 }
 
@@ -200,7 +203,10 @@ func (rt *scriptRT) RoundTrip(req *http.Request) (*http.Response, error) {
 	}
 	a, _ := strconv.ParseInt(m[1], 10, 64)
 	b, _ := strconv.ParseInt(m[2], 10, 64)
-	chunk := int(a / rt.sc.Chunk)
+	chunk := 0
+	if rt.sc.Chunk > 0 { // a non-positive scripted chunk size means "library default": one chunk here
+		chunk = int(a / rt.sc.Chunk)
+	}
 	rt.mu.Lock()
 	n := rt.counts[chunk]
 	rt.counts[chunk]++
@@ -379,17 +385,19 @@ func inspect(callerID int) parkInfo {
 // Driving one call
 
 type outcome struct {
-	Data       []byte
-	Err        error
-	Returned   bool
-	Deadlock   bool
-	GaveUp     string
-	Dump       string
-	Deliveries []delivery
-	Steps      int
-	Dumps      int
-	Heads      int
-	Simples    int
+	Data         []byte
+	Err          error
+	Returned     bool
+	Deadlock     bool
+	DeadlockKind string
+	Panic        string
+	GaveUp       string
+	Dump         string
+	Deliveries   []delivery
+	Steps        int
+	Dumps        int
+	Heads        int
+	Simples      int
 }
 
 type stats struct {
@@ -428,6 +436,11 @@ func drive(sc *script, hc hedgeCfg, served []byte) outcome {
 	done := make(chan res, 1)
 	go func() {
 		idCh <- goid()
+		defer func() {
+			if rv := recover(); rv != nil {
+				done <- res{nil, fmt.Errorf("PANIC in FetchWithParallelRangeRequests: %v", rv)}
+			}
+		}()
 		d, e := vgirpc.FetchWithParallelRangeRequests(client, "http://scripted.invalid/resource", cfg)
 		done <- res{d, e}
 	}()
@@ -436,6 +449,9 @@ func drive(sc *script, hc hedgeCfg, served []byte) outcome {
 	deadline := time.Now().Add(watchdog) // watchdog only: firing = inconclusive
 	finish := func(r res) outcome {
 		out.Data, out.Err, out.Returned = r.data, r.err, true
+		if r.err != nil && strings.HasPrefix(r.err.Error(), "PANIC in ") {
+			out.Panic = r.err.Error()
+		}
 		out.Deliveries = rt.deliveries()
 		rt.mu.Lock()
 		out.Heads, out.Simples = rt.heads, rt.simples
@@ -496,8 +512,17 @@ func drive(sc *script, hc hedgeCfg, served []byte) outcome {
 				out.Deliveries = rt.deliveries()
 				return out
 			}
-			// children blocked on the semaphore with nothing in flight cannot
-			// happen for MaxParallelRequests >= 1; treat as not-yet-settled.
+			if n := pi.childStates["chan send"]; n == pi.children && rt.openBody.Load() == 0 {
+				// Parked, nothing in flight or scheduled, and EVERY goroutine of the
+				// call is blocked sending on a channel: the only channel they can
+				// block on is the semaphore (the result channel is buffered for all
+				// attempts), nobody holds a slot, so nobody will ever free one.
+				out.Deadlock = true
+				out.DeadlockKind = "all-attempts-blocked-on-semaphore"
+				out.Dump = pi.callerBlock
+				out.Deliveries = rt.deliveries()
+				return out
+			}
 			if time.Now().After(deadline) {
 				out.GaveUp = fmt.Sprintf("watchdog: parked with %d children %v and nothing pending", pi.children, pi.childStates)
 				out.Deliveries = rt.deliveries()
